@@ -44,3 +44,78 @@ func VerifC35Limit() {
 	vAssert("limit-not-undershot", ok == int(caps.MaximumClients) || n < int(caps.MaximumClients))
 	vReach("end")
 }
+
+// VerifC35History: the limit also holds after any history of connections, takeovers (a second connection with
+// the id of a live one) and hang-ups: the slot accounting must neither leak nor double-release. After the
+// history, MAX+1 fresh attempts are made one after the other; at no point are more than MAX connections open
+// that were admitted, and an attempt is refused only when MAX are open.
+func VerifC35History() {
+	caps := NewDefaultServerCapabilities()
+	max := vParam("MAX", 2)
+	caps.MaximumClients = int64(max)
+	s, _ := vNewServer(&Options{Capabilities: caps})
+	ver := byte(vConcrete(int(vByteIn("\x04\x05")), 4, 5))
+	type conn struct {
+		c  interface{ Close() error }
+		id string
+	}
+	var open []conn // admitted and not closed (by the client or by the broker)
+	admitted := func(c interface{ Close() error }) bool {
+		w := vParseWire(vConnWritten(connOf(c)), ver)
+		return len(w.Pkts) >= 1 && w.Pkts[0].Type == packets.Connack && w.Pkts[0].Reason == 0
+	}
+	prune := func() {
+		var keep []conn
+		for _, x := range open {
+			if !vConnClosed(connOf(x.c)) {
+				keep = append(keep, x)
+			}
+		}
+		open = keep
+	}
+	attempt := func(id string) {
+		prune()
+		before := len(open)
+		takeover := false
+		for _, x := range open {
+			if x.id == id {
+				takeover = true
+			}
+		}
+		c := vDial(s, vConnOpts{ver: ver, id: id, clean: true, keepalive: 60})
+		ok := admitted(c)
+		if ok {
+			open = append(open, conn{c, id})
+		}
+		prune()
+		vAssert("established-connections-within-the-limit", len(open) <= max)
+		if before < max {
+			vAssert("attempt-below-the-limit-is-admitted", ok)
+		}
+		if before >= max && !takeover {
+			vAssert("attempt-beyond-the-limit-is-refused", !ok)
+		}
+	}
+	ids := []string{"a", "b", "c", "d", "e"}
+	steps := vParam("STEPS", 3)
+	for i := 0; i < steps; i++ {
+		switch vChoose(3) {
+		case 0: // a fresh id, or the id of a connection that may be live (takeover)
+			attempt(ids[vChoose(2)])
+		case 1: // takeover of the first open connection
+			prune()
+			if len(open) > 0 {
+				attempt(open[0].id)
+			}
+		case 2: // the first open connection hangs up
+			prune()
+			if len(open) > 0 {
+				vHangup(connOf(open[0].c))
+			}
+		}
+	}
+	for k := 0; k <= max; k++ {
+		attempt(ids[2+k%3])
+	}
+	vReach("end")
+}
